@@ -43,7 +43,7 @@ class C11(Prop):
     rule = ("scenarios against a real exporter on 127.0.0.1 with real client sockets: buffer_size in {None,0,1,2,3,8,64,1024}; "
             "1-4 clients drawn from fast reader / stalled reader (SO_RCVBUF 1024, exporter SO_SNDBUF shrunk, reads only at the end) / "
             "close after phase 1 / RST (SO_LINGER 0) after phase 1 / late joiner; 0-4 describes before the first connect and 0-2 between "
-            "the phases; 1-3 emitting threads with counter/gauge/histogram operations, labels and numbered values, paced so that at most "
+            "the phases (now and then re-describing a name with another type); 1-3 emitting threads with counter/gauge/histogram operations, labels and numbered values, paced so that at most "
             "buffer_size channel messages are in flight; a scripted fault plan (short write / EINTR / EAGAIN) for the first conn.write calls; "
             "non-trivial = at least one client and one emission; distinct = distinct scenario descriptions")
     design_ref = "DESIGN.md 4 C11"
@@ -56,14 +56,15 @@ class C11(Prop):
                   "all of them if drop-oldest never fired (C11_prefix_metadata_then_metrics_in_order); client_count = |clients| and should_send = (|clients| > 0) "
                   "(C11_client_count_exact); start-up reaches the loop for every limit (C11_starts_for_every_limit); the Spec decoder inverts the modelled prost encoding of Metadata and Metric events for all names, "
                   "label lists, timestamps, operations and values (C11_fields/metadata/metric_roundtrip: name, labels, operation kind and value intact); a stream of the proved shape passes the boolean "
-                  "stream check (C11_stream_log_ok_reflect). The five defects are refuted on the pre-fix "
+                  "stream check (C11_stream_log_ok_reflect) and the model's own run passes spec_ok (C11_spec_ok_on_model, see note). The five defects are refuted on the pre-fix "
                   "settings of the model (C11_*_refuted_before_fix). Trace validation ties the model to /repo: every run replays the hook log of real exporters "
                   "on real sockets through the model and compares per-client byte streams and boundary counters; spec_ok is evaluated on the streams the clients read.")
-    level_note = ("Partial: C11_spec_ok_on_model_partial proves the start-up and counter clauses of spec_ok for the model's own output; the stream clause is proved at the Prop level "
-                  "(C11_stream_integrity, C11_prefix_...) and its boolean form by reflection from that shape (C11_stream_log_ok_reflect), but the bookkeeping that instantiates the reflection "
-                  "lemma with the model's own run (model metadata map = the spec's log view up to permutation; streams of removed clients) is not done; the end-to-end clause (every emission delivered, "
-                  "name/labels/operation intact, per-thread order; log_harness_ok) is checked on every run against the harness's emission list, not proved: it depends on the channel "
-                  "and the should_send gate seen from other threads, which are not modelled (the Metric encoding is modelled, proved invertible and compared byte for byte per run). `overflowed` is a ghost flag set where drop-oldest "
+    level_note = ("C11_spec_ok_on_model (the model's own run passes spec_ok, all clauses) is proved under case_wf, which contains one named hypothesis, still_connected: every client "
+                  "entry of the case is still connected in the model's final state. Streams of clients the model has removed (the `gone` ghost) are therefore not covered by that theorem "
+                  "(no invariant was proved for removed clients); they are validated per run only (prefix agreement with the model, spec_ok on the bytes read). The hypotheses are shown "
+                  "satisfiable on a concrete case (C11_spec_ok_on_model_example). harness_ok (what the exporter drained from its channel = what the harness described and emitted: the end-to-end "
+                  "delivery clause) is a hypothesis of that theorem and is evaluated on every run, not proved: it depends on the channel and the should_send gate seen from other threads, "
+                  "which are not modelled (the Metric encoding is modelled, proved invertible and compared byte for byte per run). `overflowed` is a ghost flag set where drop-oldest "
                   "discards (to_drain > 0). Trusted: Coq kernel; hand-written model; cfg(metrics_verif) hooks (event log, socket wrapper that scripts some write results).")
     assumptions = [
         "mio readiness, kernel socket buffers and the crossbeam channel are the runtime's (exercised, not modelled); the harness paces emissions so that at most buffer_size channel messages are in flight",
